@@ -1,0 +1,40 @@
+//go:build verif
+
+package statedifflength
+
+// Contracts for gocv (contract-based deductive verification, /verif).
+
+//@ ghost func errIs(err error, target error) bool
+//@ extern func errors.Is
+//@   ensures result == errIs(err, target)
+//@   ensures err == target && err != nil ==> result
+//@   ensures err == nil && target != nil ==> !result
+
+// What is read from the store (assumed contracts recording the answers).
+//@ ghost var heightRead uint64
+//@ ghost var heightErr error
+//@ ghost var startRead uint64
+//@ extern func github.com/NethermindEth/juno/core.GetChainHeight
+//@   assigns heightRead, heightErr
+//@   ensures heightErr == result1 && (result1 == nil ==> heightRead == result0)
+//@ func (*Migrator).startBlock
+//@   trusted
+//@   assigns startRead
+//@   ensures result2 == nil ==> startRead == result0 && result1 <= result0
+//@ func blockRange
+//@   trusted
+//@   logged
+
+// The migration reports completion without doing any work only if there is nothing at or below
+// the chain height left to backfill; otherwise the block range it processes runs from the start
+// block through the chain height inclusive.
+//@ func (*Migrator).Migrate
+//@   props C18
+//@   arith int
+//@   requires m != nil
+//@   nosafe
+//@   modifies *
+//@   modifies maps
+//@   assigns heightRead, heightErr, startRead, calls_blockRange, arg_blockRange_start, arg_blockRange_end, arg_blockRange_next
+//@   callsite blockRange@*: whole_range: start == startRead && end == heightRead
+//@   ensures done_without_work_only_if_nothing_left: result0 == nil && result1 == nil && calls_blockRange == old(calls_blockRange) && heightErr == nil ==> startRead > heightRead
